@@ -364,6 +364,10 @@ func checkC13(c *core.Ctx) {
 		pool := []theory.Key{sup[r.Intn(len(sup))], sup[r.Intn(len(sup))], sup[r.Intn(len(sup))]}
 		for j := 0; j < n; j++ {
 			in := model.Instance{Values: []model.Frac{{Num: 1, Den: 1}}}
+			if r.Intn(5) == 0 {
+				// an instance that rounds to no ticks at all: the next statement falls on the same tick
+				in.Values = []model.Frac{{Num: 1, Den: 4000}}
+			}
 			if r.Intn(5) >= 2 {
 				in.Chord = &model.ChordSpec{Deg: theory.Interval{N: 1, Q: theory.Perfect}, Symbol: ""}
 			}
@@ -416,13 +420,18 @@ func checkC13(c *core.Ctx) {
 			}
 		}
 		var exp []string
+		starts := make([]uint64, n+1)
+		for j := 0; j < n; j++ {
+			l := model.Lengths(int(file.Division), p.Inst[j].Values)
+			starts[j+1] = starts[j] + l[0]
+		}
 		for _, w := range want {
 			k, _ := theory.ParseKey(w.key)
 			mi := 0
 			if k.Minor {
 				mi = 1
 			}
-			exp = append(exp, fmt.Sprintf("tick %d: sf=%d mi=%d", w.inst*int(file.Division), k.Signature(), mi))
+			exp = append(exp, fmt.Sprintf("tick %d: sf=%d mi=%d", starts[w.inst], k.Signature(), mi))
 		}
 		if strings.Join(got, "; ") != strings.Join(exp, "; ") {
 			c.Violate("smf-history", i, "smf-history:signatures", fmt.Sprintf("key signature events [%s], the key statements of the piece call for [%s]", strings.Join(got, "; "), strings.Join(exp, "; ")), det)
@@ -430,6 +439,39 @@ func checkC13(c *core.Ctx) {
 		}
 		if len(want) >= 3 {
 			c.Nontrivial(fmt.Sprintf("hist%d", i))
+		}
+	})
+
+	// what `crd write event` says about the signature: the name it prints for the key signature event, when it
+	// prints one, is the key's (CsharpMin, EbMaj, ...: letter, sharp/b, Maj/Min)
+	c.Stream("eventname", len(sup), func(i int, _ *rand.Rand) {
+		k := sup[i]
+		p := model.Piece{Inst: []model.Instance{{Chord: &model.ChordSpec{Deg: theory.Interval{N: 1, Q: theory.Perfect}, Symbol: ""}, Values: []model.Frac{{Num: 1, Den: 1}}}}}
+		res := run(c, p.YAML(model.YAMLStyle{}), "write", "event", "--key", k.String())
+		c.Eval(1)
+		if infra(c, res) {
+			return
+		}
+		if a := abnormal(res); a != "" || !res.OK() {
+			c.Violate("eventname", i, "eventname:"+k.String()+":failed", "write event --key "+k.String()+" failed "+a, obs(res))
+			return
+		}
+		for _, ln := range strings.Split(string(res.Stdout), "\n") {
+			j := strings.Index(ln, "MetaKeySig key:")
+			if j < 0 {
+				continue
+			}
+			name := strings.TrimSpace(ln[j+len("MetaKeySig key:"):])
+			if name == "" {
+				c.Count("event_names_empty", 1) // the library has no name for seven accidentals
+				continue
+			}
+			want := string(k.Tonic.Letter) + map[int]string{1: "sharp", -1: "b", 0: ""}[k.Tonic.Acc] + map[bool]string{false: "Maj", true: "Min"}[k.Minor]
+			if name != want {
+				c.Violate("eventname", i, "eventname:"+k.String(), fmt.Sprintf("write event --key %s names the key signature %q, the key is %s", k, name, want), obs(res))
+				return
+			}
+			c.Nontrivial("eventname:" + k.String())
 		}
 	})
 }
